@@ -224,7 +224,7 @@ class AntexParser(ChainParser):
                 # TODO: 'COMMENT':
                 # ----+----1----+----2----+----3----+----4----+----5----+----6----+----7----+----8
                 #    G02                                                      START OF FREQUENCY
-                "START OF FREQUENCY": {"parser": self.parse_section_string, "fields": {"frequency_code": (3, 6)}},
+                "START OF FREQUENCY": {"parser": self.parse_start_of_frequency, "fields": {"frequency_code": (3, 6)}},
                 # ----+----1----+----2----+----3----+----4----+----5----+----6----+----7----+----8
                 #     279.00      0.00   2289.30                              NORTH / EAST / UP
                 "NORTH / EAST / UP": {
@@ -272,6 +272,16 @@ class AntexParser(ChainParser):
         """Parse string entries of ANTEX header.
         """
         cache.update({k: v for k, v in line.items()})
+
+    def parse_start_of_frequency(self, line: Dict[str, str], cache: Dict[str, Any]) -> None:
+        """Parse 'START OF FREQUENCY' entry of ANTEX antenna section.
+
+        The antenna corrections are collected for each frequency section separately. Therefore the corrections read
+        so far (e.g. from the frequency section before) are removed from cache.
+        """
+        cache.update({k: v for k, v in line.items()})
+        cache.pop("noazi", None)
+        cache.pop("azi", None)
 
     def parse_correction(self, line: Dict[str, str], cache: Dict[str, Any]) -> None:
         """Parse antenna corrections entries of ANTEX antenna section.
